@@ -14,7 +14,9 @@ E = Ellipsis
 
 UNRELATED = [None, True, 0, 1, 1.0, "", "a", b"", [], [None], {}, {"a": 1}]
 
-_OTHER_KINDS = [None, True, 0, 1.5, "q", b"q", [], {}]
+# `...` and Nil are ordinary (non-conforming) values for the validator; only substitution gives
+# them a meaning
+_OTHER_KINDS = [None, True, 0, 1.5, "q", b"q", [], {}, E, Nil]
 
 
 def _key(v):
